@@ -55,14 +55,22 @@ def oracle(c, out):
 
 
 def run(ctx):
+    # the statement sequence of propagateUpdate is regenerated: the atomicity theorem of Properties/C01.v is about it
+    from vf import core
+    ok, changed, log = core.generate("c01", "C01Atomic")
+    if not ok:
+        ctx.say("translator target c01 failed: " + log[-300:])
     return spkcommon.run(ctx, "C01", oracle, "propagateUpdateToNeighbors/filterpath/UpdatePathAttrs/table dump vs Speaker.Model.step",
                          ["ADD-PATH send (send-max bookkeeping, path-identifier stability) is NOT in the Coq model: it is decided by the direct "
                           "oracle on the whole server only (scenarios with an ADD-PATH peer, incl. a churn generator); no export policy, IPv4 unicast only",
-                          "events are applied one at a time: the per-prefix bucket locks, sender coalescing across queued batches and "
-                          "concurrent fan-out are exercised only in the order the synctest scheduler produces",
+                          "events are applied one at a time; that the Loc-RIB update and the fan-out of one destination form one critical section of its "
+                          "propagation bucket is checked structurally on the regenerated statement sequence of propagateUpdate (theorem "
+                          "C01_update_and_fanout_in_one_critical_section), not by exploring schedules; sender coalescing across queued batches is not in the model, it is exercised on the whole server "
+                          "by scenarios in which a receiving peer stops reading while changes of the same destinations queue up for it (model and oracle see no difference)",
                           "the oracle takes the best path from the implementation's Loc-RIB listing (best-path selection itself is C03)"],
                          fields=("view", "best"), addpath=0.5,
-                         extra_cases=lambda ctx: [simlib.gen_ap_churn(ctx.rng) for _ in range(ctx.scale(2500, 60000))])
+                         extra_cases=lambda ctx: [simlib.gen_ap_churn(ctx.rng) for _ in range(ctx.scale(2500, 60000))] +
+                                                 [simlib.gen_coalesce(ctx.rng) for _ in range(ctx.scale(800, 20000))])
 
 
 def replay(ctx, path):
